@@ -631,7 +631,21 @@ class TokamakEquilibrium(Equilibrium):
                 return [sign * Br / B, sign * Bz / B]
 
             pos = leg  # Starting position
+            # A leg longer than twice the perimeter of the domain is not going to reach
+            # the wall (e.g. it stays on a closed flux surface because the X-point was
+            # not located accurately), so stop with an error instead of looping for ever
+            max_steps = (
+                int(4.0 * ((self.Rmax - self.Rmin) + (self.Zmax - self.Zmin)) / step)
+                + 1
+            )
+            nsteps = 0
             while True:
+                nsteps += 1
+                if nsteps > max_steps:
+                    raise ValueError(
+                        f"Leg starting at {leg} near X-point {xpoint} did not reach the "
+                        f"wall after {max_steps} steps of {step}m."
+                    )
                 # Integrate a distance "step" along the leg
                 solve_result = solve_ivp(
                     dpos_dl,
